@@ -808,6 +808,8 @@ func (a *act) builtin(b *ssa.Builtin, c *ssa.CallCommon, args []Val, guard strin
 		// (no source-side trigger for the shifted part: together with the result-side trigger it would ping-pong forever)
 		// common case: one appended element
 		fx.ctx.Assert(Imp(Eq(lt, "1"), Eq(Sel(na, ls), Sel(Sel(h, App("sbase", t.T)), App("soff", t.T)))))
+		// ... stated over result[len(s)] as well: the ground term is the witness for "the appended element is in the result"
+		fx.ctx.Assert(Imp(Eq(lt, "1"), Eq(elemR(ls), Sel(Sel(h, App("sbase", t.T)), App("soff", t.T)))))
 		fx.eng.assume("append always copies into a fresh backing array (no writes into spare capacity of a shared array)")
 		return Val{T: res, S: SSlice, GT: c.Args[0].Type()}
 	case "copy":
